@@ -12,7 +12,10 @@ _tls = threading.local()
 
 def canon_dump(funcs):
     """canonical text of a list of dumped functions (origin/file names dropped)"""
-    fs = sorted(([f["name"], [[i["id"], i["args"]] for i in f["code"]]] for f in funcs), key=lambda x: x[0])
+    # (the captured names of make_function - every argument after the first - are a set: the compiler collects them in a HashSet,
+    # so their order differs from one compilation to the next)
+    arg = lambda i: [i["args"][0]] + sorted(i["args"][1:]) if i["op"] == "make_function" and i["args"] else i["args"]
+    fs = sorted(([f["name"], [[i["id"], arg(i)] for i in f["code"]]] for f in funcs), key=lambda x: x[0])
     return json.dumps(fs, ensure_ascii=False, sort_keys=True)
 
 
@@ -182,7 +185,12 @@ def run_check(pid, tier, want_text):
     import random
     rnd = random.Random(rep.seed)
     pool = rnd.sample(pool, min(len(pool), 150 if tier == "quick" else 1500))
-    progs = [(str(Path(s).relative_to(work)), s) for s in srcs] + [("pool/" + str(Path(s).relative_to(work / "pool")), s) for s in pool]
+    # ... and programs of the other feature areas (closures, identifiers, objects, lists / maps, evaluation order)
+    feat = progpool.features(binary, work / "features", tier, rep.seed)
+    if tier == "quick" and len(feat) > 500:
+        feat = rnd.sample(feat, 500)
+    progs = [(str(Path(s).relative_to(work)), s) for s in srcs] + [("pool/" + str(Path(s).relative_to(work / "pool")), s) for s in pool] \
+        + [("features/" + str(Path(s).relative_to(work / "features" / "f")), s) for s in feat]
     if want_text:
         progs = [(i, s) for i, s in progs if "import " not in Path(s).read_text(errors="replace")]
     pobs = C.pmap(lambda kx: observe_program(binary, root, kx[1][1], want_text, kx[1][0], stale=(blob if kx[0] % 2 == 0 else b"")), list(enumerate(progs)))
